@@ -1,6 +1,6 @@
 """C08 -- velocity/displacement are cumulative trapezoid integrals; peaks are max abs (typing obligations)."""
 from ..tyob import *  # noqa
-from ..tyob import analyse, expect, item, read_property, unmodelled_in
+from ..tyob import analyse, expect, item, read_property, unmodelled_in, check_forwarder
 from .c04 import extract_model, memo_key_rule
 
 ARR = "eqsig.displacements.calc_velo_and_disp_from_accel_arr"
@@ -28,6 +28,7 @@ def run(chk):
             expect(chk, "R-INT-TYPE", c + ".displacement", d, length="n", lin=[R], deg={DT: 2}, f0=True, kind=K_ARRAY, loc=r.fi.loc())
             expect(chk, "R-QUAD", c + ".velocity", v, tags_has=[quad], tags_not=[other], loc=r.fi.loc())
             expect(chk, "R-QUAD", c + ".displacement", d, tags_has=[quad], tags_not=[other], loc=r.fi.loc())
+    check_forwarder(chk, "R-INT-TYPE", FWD, ARR)
     # default of trap is trapezoid
     r = analyse(chk, ARR, lambda I, st, fi: dict(acceleration=rec_array("acceleration"), dt=pos_scalar("dt", DT)))
     expect(chk, "R-QUAD", "eqsig/displacements.py:calc_velo_and_disp_from_accel_arr(default)", item(r.ret, 1),
